@@ -11,6 +11,18 @@ CHECKS = {
             "TLC exhaustive enumeration of all weighted binary vectors (Metrics.tla laws) + replay of every TLC state into fairlearn.metrics under every encoding",
             "TLC checks range / complement / class-swap laws on every vector up to the bound and emits exact rational expected values; every emitted state is executed against the seven base metrics under 10 encodings, weighted and unweighted, two row orders; scalar-ness asserted",
             "sklearn's confusion_matrix is exercised through the public functions, not trusted; vectors longer than the bound only by simulation (thorough)", "5/C14"),
+    "C02": (["Frame.tla", "Rat.tla"],
+            "TLC exhaustive enumeration of small datasets (Frame.tla aggregate laws) + replay of every TLC state into MetricFrame, all aggregates x methods x errors",
+            "TLC shows the 'hence' inequalities follow from the aggregate definitions on every dataset up to the bound and emits the exact rational value of group_min/max, difference, ratio for both methods; each state is replayed into MetricFrame (dict and callable form, weighted/unweighted, with/without control feature, canonical and shuffled row order) and every aggregate for both errors settings is compared; inequalities re-evaluated on the code's floats",
+            "8 scalar metrics; one sensitive and at most one control feature in the aggregate spec (multi-feature layouts are C01's spec)", "5/C02"),
+    "C03": (["Frame.tla", "Rat.tla"],
+            "TLC exhaustive enumeration of all binary datasets with 1..4 groups up to the size bound + replay of every state into all named / generated fairness metrics",
+            "every dataset (groups of size 1, empty denominators included) up to the bound is a TLC state carrying the exact first-principles value of DP/EOpp/EOdds x difference/ratio x method x agg and of each generated metric; every public function is called on each state with and without sample_weight",
+            "roc_auc/r2/f1/balanced-accuracy/log-loss variants and make_derived_metric are checked for equivalence with the MetricFrame call (plus a first-principles value for a custom weighted metric); equalized_odds_ratio not compared when a component ratio is 0/0", "5/C03"),
+    "C11": (["Metrics.tla", "Frame.tla", "Rat.tla"],
+            "TLC-checked multiplicity laws on the definitions (Expand / Scale / AllOnes) + the same three metamorphic pairs executed on the code for every TLC state",
+            "laws LawExpand, LawExpandUnit, LawScale, LawAllOnes, LawUnitWeights hold on every enumerated dataset; for each state the code is run weighted, expanded with unit weights, expanded without weights, with real scalings (0.5, pi, 3) and with weights omitted, for the six weighted base metrics, MetricFrame cells/aggregates per group and four named fairness metrics; results compared with each other and with the spec's exact value",
+            "integer weights 1..3 in the enumeration; real-valued scalings only as multiples of those", "5/C11"),
 }
 
 PENDING_REASON = "check under construction in this session (DESIGN.md section 5 describes the planned TLA+ spec and binding); not yet claimed"
